@@ -1063,6 +1063,29 @@ def _radius_ok(nn, q, rad):
     return ok, found
 
 
+def _char_map_ok(nn, q, s, m):
+    """The letter -> coordinate map is a table built from the alphabet (comprehension / dict / module constant / constructor call), possibly
+    handed in by the caller - then every caller must hand in such a table."""
+    m = strip(m)
+    if head(m) == "ite":
+        return _char_map_ok(nn, q, s, m[2]) and _char_map_ok(nn, q, s, m[3])
+    if head(m) in ("comp", "dict", "glob", "call"):
+        return True
+    if head(m) == "param":
+        sites = 0
+        for fq in [x for x in nn.P.functions if x.startswith(MOD)]:
+            for e in nn.summary(fq).calls(q):
+                bind = nn.A.bind_call(s, e["term"])
+                v = strip(bind.get(m)) if bind else None
+                if v is None:
+                    return False
+                if not (is_const(v, None) or head(v) in ("comp", "dict", "glob", "call")):
+                    return False
+                sites += 1
+        return sites > 0
+    return False
+
+
 def check_encoder(r, rule):
     """_histogram_encode: every character increments exactly one coordinate, chosen by a character-only map, by exactly 1 (hypothesis of A.2)."""
     nn = get_nn(r)
@@ -1087,7 +1110,7 @@ def check_encoder(r, rule):
             if ok:
                 ce = src[3][0][0]
                 elt = strip(src[2])
-                ok_idx = head(elt) == "sub" and strip(elt[2]) == ce and not any(x == ce for x in walk(elt[1])) and head(strip(elt[1])) in ("comp", "dict", "glob", "call")
+                ok_idx = head(elt) == "sub" and strip(elt[2]) == ce and not any(x == ce for x in walk(elt[1])) and _char_map_ok(nn, q, s, elt[1])
             r.rep.ob(rule, q, ok, "every character of the sequence is counted once, unguarded", where, expected="np.bincount(map[char] for char in cdr3)", found=show(src, 80), key="enc loop")
             r.rep.ob(rule, q, ok_idx, "the coordinate is chosen by a map of the character only (not of its position)", where, expected="position_map[char]", found=show(src, 80), key="enc map")
             r.rep.ob(rule, q, "weights" not in dict(z[3]) and len(z[2]) == 1, "each character counts exactly 1 (no weights)", where, expected="no weights", found=show(z, 60), key="enc increment")
@@ -1112,7 +1135,7 @@ def check_encoder(r, rule):
         m = strip_all(idx[1])
         # the map must not depend on the loop (position in the sequence)
         dep = any(x == ("iter",) + lp[0].elem[1:] or (head(x) == "phi" and x[1] == lp[0].lid) for x in walk(m))
-        ok_idx = not dep and head(m) in ("comp", "dict", "glob", "call")
+        ok_idx = not dep and _char_map_ok(nn, q, s, m)
     r.rep.ob(rule, q, ok_idx, "the coordinate is chosen by a map of the character only (not of its position)", wh(r, q, e.node), expected="ans[position_map[char]]", found=found, key="enc map")
     z = strip(s.ret)
     r.rep.ob(rule, q, is_call(z, "numpy.zeros"), "the vector starts at zero", where, expected="np.zeros(dimension)", found=show(z, 60), key="enc zeros")
@@ -1245,6 +1268,8 @@ def _accum_component(s, term, triplets):
         e = strip(t[2])
         if head(e) == "sub" and strip(e[1]) == t[3][0][0] and is_const(e[2]) and isinstance(e[2][2], int):
             return e[2][2]
+        if head(e) == "item" and strip(e[1]) == t[3][0][0] and isinstance(e[2], int):
+            return e[2]          # [q for q, _, _ in triplets]
         return None
     if head(t) != "after":
         return None
@@ -1336,8 +1361,11 @@ def _coo_ok(r, rule, nn, s, call, trip, seqs, seqs2, where):
         data, (row, col) = arg[1][0], strip(arg[1][1])[1]
         ks = [_accum_component(s, x, trip) for x in (data, row, col)]
         ok_parts = ks == [2, 1, 0]
-        r.rep.ob(rule, q, ok_parts, "matrix entry [r, q] = d for each triplet (q, r, d): data <- triplet[2], row <- triplet[1], col <- triplet[0]", where,
-                 expected="data, row, col collect components 2, 1, 0 of every triplet, in order", found=f"components {ks}", key="coo components")
+        if None in ks:
+            r.rep.require(False, f"{q}: the data / row / col arguments of coo_matrix are not per-triplet component lists of the idiom list ({show(data, 40)}, ...); cannot decide [{rule}]")
+        else:
+            r.rep.ob(rule, q, ok_parts, "matrix entry [r, q] = d for each triplet (q, r, d): data <- triplet[2], row <- triplet[1], col <- triplet[0]", where,
+                     expected="data, row, col collect components 2, 1, 0 of every triplet, in order", found=f"components {ks}", key="coo components")
     else:
         r.rep.ob(rule, q, False, "COO matrix is built as coo_matrix((data, (row, col)), shape=...)", where, expected="(data, (row, col))", found=found, key="coo form")
     shape = dict(c[3]).get("shape")
